@@ -2,7 +2,7 @@
 """Measured binding coverage (DESIGN 5.1): build every driver with --coverage, run the quick checks, and report per
 anchored header of each property how many instrumented lines the drivers executed.
   python3 tools/bindcov.py [C01 C04 ...]      (default: all 20; slow: -O0 + gcov; run in the background)
-Writes evidence/bindcov.json (not part of any check; informational)."""
+Writes reports/bindcov.json (not part of any check; informational)."""
 import glob, gzip, json, os, subprocess, sys, shutil
 V = os.path.dirname(os.path.dirname(os.path.abspath(__file__)))
 props = sys.argv[1:] or ["C%02d" % i for i in range(1, 21)]
@@ -42,7 +42,7 @@ for l in open(os.path.join(V, "properties.jsonl")):
         rows[a] = {"headers": len(hits), "instrumented": sum(h["instrumented"] for h in hits.values()),
                    "executed": sum(h["executed"] for h in hits.values())}
     out["by_property"][pr["id"]] = rows
-os.makedirs(os.path.join(V, "evidence"), exist_ok=True)
-json.dump(out, open(os.path.join(V, "evidence", "bindcov.json"), "w"), indent=1)
+os.makedirs(os.path.join(V, "reports"), exist_ok=True)
+json.dump(out, open(os.path.join(V, "reports", "bindcov.json"), "w"), indent=1)
 zero = [(p, a) for p, rows in out["by_property"].items() for a, r in rows.items() if r["executed"] == 0]
 print("anchors with zero executed lines:", zero)
